@@ -1,11 +1,13 @@
 package c18
 
 import (
+	"context"
 	"errors"
 	"fmt"
 	"testing"
 
 	"github.com/aldas/go-modbus-client/packet"
+	"github.com/aldas/go-modbus-client/server"
 	"pgregory.net/rapid"
 
 	"verif/internal/cat"
@@ -420,5 +422,75 @@ func TestCrossFramingRequests(t *testing.T) {
 		if !chkPrefix.Eval(t, prefixCase{Req: r}) {
 			return
 		}
+	}
+}
+
+// ---------------------------------------------------------------------------
+// the code that joins classifier and dispatcher: the server's stream assembler cuts what the classifier accepted out of the stream and
+// hands it to the dispatcher. Every encodable request, fed to one assembler among many others (one, two or three per read, so that
+// the bytes of the next frame already lie behind the one being cut out), must reach the handler as itself - the 1st like the 1024th.
+
+type joinCase struct {
+	N       int    `json:"n"`
+	PerRead int    `json:"per_read"`
+	Seed    uint64 `json:"seed"`
+}
+
+// echoHandler answers every request with a fixed-shape response that names the request it was given.
+type echoHandler struct{}
+
+type echoResponse struct{ b []byte }
+
+func (r echoResponse) FunctionCode() uint8 { return r.b[7] }
+func (r echoResponse) Bytes() []byte       { return r.b }
+
+func (echoHandler) Handle(ctx context.Context, req packet.Request) (packet.Response, error) {
+	raw := req.Bytes()
+	return echoResponse{b: []byte{raw[0], raw[1], 0, 0, 0, 3, raw[6], raw[7], byte(len(raw))}}, nil
+}
+
+func runJoin(c joinCase) harness.Result {
+	a := &server.ModbusTCPAssembler{Handler: echoHandler{}}
+	s := c.Seed
+	var read, want []byte
+	inRead := 0
+	for i := 0; i < c.N; i++ {
+		v := harness.SplitMix64(&s)
+		fc := spec.Functions[int(v%uint64(len(spec.Functions)))]
+		r := spec.Req{FC: fc, Unit: uint8(v >> 8), Tx: uint16(i), Addr: uint16(v>>16) & 0x0FFF, Qty: 1 + uint16(v>>40)%8, Value: 0xFF00, WAddr: 3, WQty: 1, ByteCount: 2, Payload: []byte{byte(v >> 32), byte(v >> 48)}}
+		switch fc {
+		case 15:
+			r.Qty, r.ByteCount, r.Payload = 1+uint16(v>>40)%8, 1, []byte{byte(v >> 32)}
+		case 16:
+			r.Qty = 1
+		}
+		fr := spec.EncodeRequest(spec.TCP, r)
+		read = append(read, fr...)
+		want = append(want, fr[0], fr[1], 0, 0, 0, 3, fr[6], fr[7], byte(len(fr)))
+		inRead++
+		if inRead < c.PerRead && i+1 < c.N {
+			continue
+		}
+		out, closeConn := a.ReceiveRead(context.Background(), read, len(read))
+		if closeConn {
+			return harness.Fail("request %d of %d on one assembler (%d per read): the assembler asks to close the connection after the valid requests %x", i+1, c.N, c.PerRead, read)
+		}
+		if string(out) != string(want) {
+			return harness.Fail("request %d of %d on one assembler (%d per read): for the valid requests %x the handler's replies are %x, the assembler returned %x", i+1, c.N, c.PerRead, read, want, out)
+		}
+		read, want, inRead = nil, nil, 0
+	}
+	return harness.Result{NonTrivial: c.N >= 100, Labels: []string{fmt.Sprintf("requests-on-one-assembler:%d", c.N), fmt.Sprintf("per-read:%d", c.PerRead)}, Weight: int64(c.N)}
+}
+
+var chkJoin = harness.Define("assembler-joins-classifier-and-dispatcher",
+	func(t *rapid.T) joinCase {
+		return joinCase{N: rapid.SampledFrom([]int{100, 700, 2100, 4200}).Draw(t, "n"), PerRead: rapid.IntRange(1, 3).Draw(t, "per_read"), Seed: rapid.Uint64().Draw(t, "seed")}
+	}, runJoin)
+
+func TestAssemblerJoin(t *testing.T) {
+	chkJoin.Rapid(t, harness.Pick(12, 300))
+	if harness.Thorough() && harness.Mine(1) {
+		chkJoin.Eval(t, joinCase{N: 140000, PerRead: 2, Seed: harness.Seed()})
 	}
 }
